@@ -13,8 +13,9 @@ B1 == <<1, MkClamped(1, <<Half>>, <<0>>)>>
 B2 == <<2, MkClamped(2, <<Half>>, <<0>>)>>
 L3 == <<1, MkClamped(1, <<Half>>, <<1>>)>>
 MCShapes == Curves({K3}, {2}, {TRUE}, Seed) \cup Curves({K2}, {3}, {FALSE}, Seed)
-            \cup Surfaces({L3}, {B2}, {3}, BOOLEAN, Seed)
-            \cup Volumes({B1}, {B2}, {L3}, {TRUE}, Seed)
+            \* (different sizes and degrees per direction: 3 x 4 control points, transposed by the histories; 4 x 2 x 3 for the volume)
+            \cup Surfaces({L3}, {K2}, {3}, BOOLEAN, Seed)
+            \cup Volumes({K2}, {B1}, {L3}, {TRUE}, Seed)
 DepthOf(s) == IF PDim(s) = 1 THEN DepthCurve ELSE IF PDim(s) = 2 THEN DepthSurf ELSE DepthVol
 ViewsOf(s) == {"ctrlpts", "evalpts", "bbox"} \cup (IF s.rat THEN {"weights"} ELSE {}) \cup (IF PDim(s) = 2 THEN {"ctrlpts2d", "tess"} ELSE {})
 Q == R(1, 4)
